@@ -1,11 +1,65 @@
-// Package c18: correspondence ops for C18 (stub, not yet built).
+// Package c18: scheduling simulations have no side effects — real disruption.SimulateScheduling / Provisioner.Schedule
+// runs with before/after digests of the whole observable world, judged by the Lean specification.
 package c18
 
 import (
+	"encoding/json"
+
 	"verifharness/internal/core"
 	"verifharness/internal/registry"
 )
 
 func init() { registry.Register("C18", Ops) }
 
-func Ops() []*core.Op { return nil }
+func Ops() []*core.Op {
+	return []*core.Op{
+		{
+			Name:       "c18.simulate",
+			Doc:        "consecutive real disruption.SimulateScheduling calls (candidates from the real disruption.GetCandidates; accepted, rejected, cancelled, deadline-exceeded and mid-Solve timeouts; single candidates, prefixes and subsets as the consolidation methods use them) with a digest of every API object, every field and exported accessor of state.Cluster / StateNode, the provider's instance types / offerings (and slice orders) and the shared Candidate objects before and after every call",
+			N:          func(t core.Tier) int { return map[core.Tier]int{core.Quick: 220, core.Thorough: 4000}[t] },
+			Gen:        genSimulate,
+			Impl:       implSimulate,
+			Rule:       "non-trivial = some run with at least one candidate placed a pod on an existing node or opened a new NodeClaim in the simulation",
+			Nontrivial: simNontrivial,
+			Labels:     simLabels,
+			Signature:  func(json.RawMessage, any) string { return "simulate" },
+			Shrink:     shrinkSim,
+		},
+		{
+			Name:       "c18.simdecide",
+			Doc:        "whole disruption decisions: the real Drift / SingleNodeConsolidation / MultiNodeConsolidation .ComputeCommands (one simulation per candidate, or a binary search over prefixes, plus computeConsolidation's price / instance-type post-processing; pass-through or the real validators with the validation delay and re-simulation; ok / cancelled / expired contexts) on candidates from the real GetCandidates, with the world digest before and after every decision (a decision is computed, not executed)",
+			N:          func(t core.Tier) int { return map[core.Tier]int{core.Quick: 120, core.Thorough: 1800}[t] },
+			Gen:        genDecide,
+			Impl:       implDecide,
+			Rule:       "non-trivial = some decision produced a delete or replace command",
+			Nontrivial: decNontrivial,
+			Labels:     decLabels,
+			Signature:  func(json.RawMessage, any) string { return "simdecide" },
+			Shrink:     shrinkDec,
+		},
+		{
+			Name:       "c18.provision",
+			Doc:        "consecutive real Provisioner.Schedule passes (clock steps in between; ok, cancelled, deadline-exceeded and mid-pass timeouts; acknowledged pods, NodePools with healthy registrations, pods the provisioner refuses) with the same world digest before and after every pass, and the nominations / deletion marks / pod bookkeeping read back as values and compared with the Lean model of Results.Record + MarkPodSchedulingDecisions",
+			N:          func(t core.Tier) int { return map[core.Tier]int{core.Quick: 200, core.Thorough: 4000}[t] },
+			Gen:        genProvision,
+			Impl:       implProvision,
+			Rule:       "non-trivial = some pass placed a pod on an existing node (a nomination happened)",
+			Nontrivial: provNontrivial,
+			Labels:     provLabels,
+			Signature:  func(json.RawMessage, any) string { return "provision" },
+			Shrink:     shrinkProv,
+		},
+		{
+			Name:       "c18.deepcopy",
+			Doc:        "Cluster.DeepCopyNodes() / the StateNodes inside the Candidates of GetCandidates: everything reachable from the copies (every map entry, slice element, pointer target, exported or not, at every depth) is overwritten, then the live state is digested again",
+			N:          func(t core.Tier) int { return map[core.Tier]int{core.Quick: 150, core.Thorough: 3000}[t] },
+			Gen:        genDeepCopy,
+			Impl:       implDeepCopy,
+			Rule:       "non-trivial = at least one copy was handed out and overwritten",
+			Nontrivial: dcNontrivial,
+			Labels:     dcLabels,
+			Signature:  func(json.RawMessage, any) string { return "deepcopy" },
+			Shrink:     shrinkDC,
+		},
+	}
+}
